@@ -1292,6 +1292,72 @@ pub fn generate(rng: &mut Rng, tier: Tier, emit: &mut dyn FnMut(String)) {
         }
     }
 
+    // three columns, a failure in the middle of a row (column 0 / 1 / 2, short length field or short cell body):
+    // the first Err item reports that column, the following ones column 0 (the iterator stands at the failing cell)
+    for rc in [1i32, 2, 5, 100000] {
+        for complete_rows in 0..2usize {
+            for fail_col in 0..3usize {
+                for short_body in [false, true] {
+                    let mut b = B::default();
+                    b.int(2);
+                    b.int(1);
+                    b.int(3);
+                    b.string(b"k");
+                    b.string(b"t");
+                    for c in ["a", "b", "c"] {
+                        b.string(c.as_bytes());
+                        b.short(9);
+                    }
+                    b.int(rc);
+                    for r in 0..complete_rows {
+                        for c in 0..3u8 {
+                            b.bytes(&[0, 0, r as u8, c]);
+                        }
+                    }
+                    for c in 0..fail_col {
+                        b.bytes(&[9, 9, 9, c as u8]);
+                    }
+                    if short_body {
+                        b.int(8);
+                        b.raw(&[1, 2, 3]);
+                    } else {
+                        b.raw(&[0, 0]);
+                    }
+                    emit(format!("e 3000 {}", hex(&frame_bytes(0, 0, 0x08, &b.out))));
+                }
+            }
+        }
+    }
+
+    // towers in every composite arm of the binary type parser, far beyond the limit (4..10 bytes per level):
+    // each arm must count its nesting level
+    for depth in [129usize, 130, 131, 1000, 20000, 200000] {
+        let arms: [(&[u8], &[u8]); 7] = [
+            (&[0, 0x20], &[]),                         // list<…>
+            (&[0, 0x22], &[]),                         // set<…>
+            (&[0, 0x21], &[0, 9]),                     // map<…, int>   (key position)
+            (&[0, 0x21, 0, 9], &[]),                   // map<int, …>   (value position)
+            (&[0, 0x31, 0, 1], &[]),                   // tuple<…>
+            (&[0, 0x31, 0, 2, 0, 9], &[]),             // tuple<int, …> (second element)
+            (&[0, 0x30, 0, 0, 0, 0, 0, 1, 0, 0], &[]), // udt{f: …}
+        ];
+        for (open, close) in arms {
+            if open.len() * depth > 900_000 {
+                continue;
+            }
+            let mut ty: Vec<u8> = Vec::with_capacity(open.len() * depth + 2 + close.len() * depth);
+            for _ in 0..depth {
+                ty.extend_from_slice(open);
+            }
+            ty.extend_from_slice(&[0, 9]);
+            for _ in 0..depth {
+                ty.extend_from_slice(close);
+            }
+            emit(case_line(&nofeat, false, 'n', None, &rows_frame_with_type(&ty)));
+            emit(case_line(&nofeat, false, 'n', None, &prepared_frame_with_type(&ty)));
+        }
+    }
+
     // compressed frames: decompression is a parameter of the model (the harness passes the plain body on)
     for _ in 0..300 * scale {
         let wf = gen_wellformed(rng);
